@@ -393,12 +393,17 @@ impl<F> PinBox<F> {
 pub open spec fn send_fut_value<T>(f: SendFuture<'_, T>) -> T {
     if big::<T>() { f.data.mem_contents().value() } else { payload(f.sig.term()) }
 }
-/// X10 stand-in for `core::ptr::read(m.as_ptr())`: a bitwise read of an initialised MaybeUninit slot (T8)
+/// X10 stand-in for `core::ptr::read(p)`: a bitwise read through a raw pointer obtained from
+/// `MaybeUninit::as_ptr` of an initialised slot (T8)
+pub uninterp spec fn cptr_init<T>(p: *const T) -> bool;
+pub uninterp spec fn cptr_val<T>(p: *const T) -> T;
 #[verifier::external_body]
-pub unsafe fn maybe_uninit_read<T>(m: &MaybeUninit<T>) -> (r: T)
-    requires /*@tag:O-read-init C04 C05 C16*/ m.mem_contents() is Init,
-    ensures r == m.mem_contents().value()
+pub unsafe fn raw_ptr_read<T>(p: *const T) -> (r: T)
+    requires /*@tag:O-read-init C04 C05 C16*/ cptr_init(p),
+    ensures r == cptr_val(p)
 { unimplemented!() }
+pub assume_specification<T> [core::mem::MaybeUninit::<T>::as_ptr] (_0: &core::mem::MaybeUninit<T>) -> (r: *const T)
+    ensures cptr_init(r) == (_0.mem_contents() is Init), _0.mem_contents() matches MemContents::Init(v) ==> cptr_val(r) == v;
 
 // ------------------------------------------------------------------ T9: clock
 pub uninterp spec fn reached(t: Instant) -> bool;
@@ -419,10 +424,19 @@ impl PartialEq for Instant {
 impl PartialOrd for Instant {
     #[verifier::external_body]
     fn partial_cmp(&self, other: &Self) -> Option<core::cmp::Ordering> { unimplemented!() }
+    // `reached` is downward closed: an instant not later than a reached instant has been reached
     #[verifier::external_body]
-    fn gt(&self, other: &Self) -> (b: bool) ensures b && reached(*self) ==> reached(*other) { unimplemented!() }
+    fn gt(&self, other: &Self) -> (b: bool)
+        ensures b ==> (reached(*self) ==> reached(*other)), !b ==> (reached(*other) ==> reached(*self)) { unimplemented!() }
     #[verifier::external_body]
-    fn lt(&self, other: &Self) -> (b: bool) ensures !b && reached(*self) ==> reached(*other) { unimplemented!() }
+    fn lt(&self, other: &Self) -> (b: bool)
+        ensures b ==> (reached(*other) ==> reached(*self)), !b ==> (reached(*self) ==> reached(*other)) { unimplemented!() }
+    #[verifier::external_body]
+    fn ge(&self, other: &Self) -> (b: bool)
+        ensures b ==> (reached(*self) ==> reached(*other)), !b ==> (reached(*other) ==> reached(*self)) { unimplemented!() }
+    #[verifier::external_body]
+    fn le(&self, other: &Self) -> (b: bool)
+        ensures b ==> (reached(*other) ==> reached(*self)), !b ==> (reached(*self) ==> reached(*other)) { unimplemented!() }
 }
 
 // ------------------------------------------------------------------ std functions vstd does not specify
